@@ -187,6 +187,21 @@ BASES = (
     ('assert', ['dir-contents', PA('.'), ':', '-selection', 'name', G("'*.txt'"), 'num-files', '==', I('1')]),
     ('assert', ['dir-contents', '-rel-home', PA('home-dir'), ':', '-with-pruned', 'name', '~', R("'^s'"), 'every', 'file', ':',
                 Y('FM', 'file-matcher')]),
+    # -selection / -with-pruned: the FILE-MATCHER is held by the "property getter" of the files-matcher, whose validation is a
+    # separate link; the tested directory is not empty (files and a sub directory), so the FILE-MATCHER is applied.  The
+    # FILES-MATCHER after it carries the same kinds of arguments as controls.  (focus: in the quick tier one invalid value
+    # at every integer / regex position)
+    ('assert', ['dir-contents', '-rel-home', PA('home-dir'), ':', '-selection', '(', 'type', 'file', '&&', 'name', '~', R("'^[xp]'"), '&&',
+                'contents', 'num-lines', '==', I('1'), ')', 'num-files', '>=', I('1'), '&&', 'every', 'file', ':', 'name', '~', R("'.'")],
+     dict(focus=True)),
+    ('assert', ['dir-contents', '-rel-home', PA('home-dir'), ':', '-recursive', '-max-depth', I('3'), '-with-pruned', '(', 'type', 'dir', '&&',
+                'dir-contents', '-recursive', '-min-depth', I('0'), 'num-files', '<', I('9'), '&&', 'name', '~', R("'^s'"), ')',
+                'num-files', '>=', I('2'), '&&', 'any', 'file', ':', 'name', '~', R("'^prog'")],
+     dict(focus=True)),
+    ('assert', ['dir-contents', '-rel-home', PA('home-dir'), ':', '-selection', '(', 'type', 'file', '&&', 'contents', '-transformed-by', '(',
+                'replace', R("'x+'"), Q('y'), '|', 'filter', '-line-nums', I('1:2'), '\n', ')', 'num-lines', '<=', I('2'), ')',
+                'every', 'file', ':', 'contents', '-transformed-by', 'filter', '-line-nums', I('1:'), '\n', 'num-lines', '<=', I('1')],
+     dict(focus=True)),
     ('assert', ['run', '%', Q('test'), Q('-f'), '-existing-file', '-rel-act', PA('f.txt')]),
     ('assert', ['$', RAW('test -f f.txt')]),
     ('assert', ['def', 'string', 'X', '=', Q('v')]),
@@ -343,7 +358,7 @@ def _with(tokens, i, new_texts):
     return ' '.join([token_text(t) for t in tokens[:i]] + list(new_texts) + [token_text(t) for t in tokens[i + 1:]])
 
 
-def mutants_of(tokens, phase: str, level: int, salt: int = 0):
+def mutants_of(tokens, phase: str, level: int, salt: int = 0, focus: bool = False):
     """-> list of (operator name, mutated instruction text, expectation).
     level 0: a sample for the quick tier; level 1: everything."""
     out = []
@@ -412,7 +427,7 @@ def mutants_of(tokens, phase: str, level: int, salt: int = 0):
             continue
         if text not in seen or (exp == MISTAKE and seen[text][2] != MISTAKE):
             seen[text] = (name, text, exp)
-    return _select(list(seen.values()), level, salt, dense=(phase == 'act'))
+    return _select(list(seen.values()), level, salt, dense=(phase == 'act'), focus=focus)
 
 
 # how many mutants of one operator are kept per base (level 0, level 1); the choice rotates with the base index so
@@ -442,7 +457,7 @@ def _op_of(name: str) -> str:
     return op
 
 
-def _select(muts, level: int, salt: int, dense: bool = False):
+def _select(muts, level: int, salt: int, dense: bool = False, focus: bool = False):
     groups = {}
     order = []
     for m in muts:
@@ -467,6 +482,15 @@ def _select(muts, level: int, salt: int, dense: bool = False):
                 keep = 2
             if level == 1:
                 keep = 99 if op in ('open-quote', 'truncate', 'delete', 'duplicate', 'transpose') else keep * 3
+        if focus and level == 0 and op in ('int-invalid', 'regex-invalid'):
+            # one invalid value at every position (the value rotates with the position)
+            by_pos = {}
+            for m in ms:
+                by_pos.setdefault(m[0].split(':')[1], []).append(m)
+            for k, pos in enumerate(sorted(by_pos, key=int)):
+                cands = by_pos[pos]
+                out.append(cands[(salt + k) % min(len(cands), 7)])
+            continue
         if keep >= len(ms):
             out.extend(ms)
             continue
@@ -487,7 +511,8 @@ def all_mutants(level: int):
     for bi, base in enumerate(BASES):
         phase, tokens, act = base_parts(base)
         use = use_of(tokens)
-        for name, text, exp in mutants_of(tokens, phase, level, bi):
+        focus = bool(len(base) > 2 and base[2].get('focus'))
+        for name, text, exp in mutants_of(tokens, phase, level, bi, focus=focus):
             out.append((bi, name, phase, text, act, exp, use))
     return out
 
